@@ -5,11 +5,11 @@
 (* values, fired rewrites.  One state per observation; TLC evaluates the   *)
 (* verdict operator of the L1 module the observation belongs to.           *)
 (***************************************************************************)
-EXTENDS TaskGraph, Collection, Optimizer, Json, IOUtils, TLCExt
+EXTENDS TaskGraph, Collection, Optimizer, MapBlocksInfo, Json, IOUtils, TLCExt
 Cases == ndJsonDeserialize(IOEnv.CASES)
 VARIABLE i
-Init == i = 0 /\ g = Chain3 /\ st = S0 /\ om = M0("n")
-Next == i < Len(Cases) /\ i' = i + 1 /\ UNCHANGED <<g, st, om>>
+Init == i = 0 /\ g = Chain3 /\ st = S0 /\ om = M0("n") /\ mbsnap = <<>> /\ mbseen = {}
+Next == i < Len(Cases) /\ i' = i + 1 /\ UNCHANGED <<g, st, om, mbsnap, mbseen>>
 
 Verdict(c) ==
   CASE c.fn = "graph"   -> GraphVerdict(c)
@@ -19,6 +19,10 @@ Verdict(c) ==
     [] c.fn = "rewrite" -> RewriteVerdict(c)
     [] c.fn = "fusion"  -> FusionVerdict(c)
     [] c.fn = "optimize" -> OptimizeVerdict(c)
+    [] c.fn = "rechunk_spec" -> RechunkSpecVerdict(c)
+    [] c.fn = "block_info" -> (IF BlockInfoVerdict(c) # "ok" THEN BlockInfoVerdict(c)
+                               ELSE IF c.got.kind = "raised" THEN "ok-computation-raised"
+                               ELSE IF ~SameValue(c.got, c.expect) THEN "map-blocks-value-differs" ELSE "ok")
     [] OTHER -> "unknown-fn"
 
 IsOk(v) == v = "ok" \/ (Len(v) > 2 /\ SubSeq(v, 1, 3) = "ok-")
